@@ -449,6 +449,43 @@ func (w *sworld) typedBytes(n string, data []byte) error {
 	return err
 }
 
+// typedChunks sends ONE message through one typed Message: every chunk is PutBytes + FlushFrame(false)
+// (a frame flush the application asked for), then FinishMessage — whose final frame is empty when the
+// buffer was just flushed. Frames are told to the stream model as typedBytes does.
+func (w *sworld) typedChunks(n string, chunks [][]byte) error {
+	e := w.ep(n)
+	enc, fin := e.crypting(), e.finalized
+	m := message.NewMessageForStream(e.s)
+	var err error
+	for _, ch := range chunks {
+		if err = m.PutBytes(bg, ch); err != nil {
+			break
+		}
+		if err = m.FlushFrame(bg, false); err != nil {
+			break
+		}
+	}
+	if err == nil {
+		err = m.FinishMessage(bg)
+	}
+	out := e.c.TakeOut()
+	frames, rest := refcodec.ParseFrames(out)
+	for _, f := range frames {
+		d, plain := w.describeP(e, f, enc)
+		w.log(fmt.Sprintf("send %s %d %s", n, f.Flag, w.payload(plain)), "ok "+d)
+	}
+	if len(rest) != 0 {
+		w.log("send "+n+" 1 -", fmt.Sprintf("ok TRAILING(%d)", len(rest)))
+	}
+	if !fin && len(out) > 0 {
+		e.clearSent = append(e.clearSent, out...)
+		e.anySent = true
+	}
+	pn := w.peer(n).name
+	w.pending[pn] = append(w.pending[pn], out...)
+	return err
+}
+
 func (w *sworld) crypto(n string, on bool) {
 	r := w.ep(n).s.SetCryptoMode(on)
 	w.log(fmt.Sprintf("crypto %s %s", n, b01(on)), "ok "+b01(r))
